@@ -138,12 +138,12 @@ for skips in (0, 1, 2):
 def tcfg(cols, rows, **kw):
     """Rust expression for a TCfg"""
     f = dict(sb=0, limit="None", alt=0, crow="SYM", ccol="SYM", top="SYM", bottom="SYM", parked_rows=0, parked_sb=0,
-             tabs_k="SYM", fill="Fill::Sym", asrow="SYM", big="false")
+             tabs_k="SYM", fill="Fill::Sym", asrow="SYM", big="false", limit_any="false")
     f.update(kw)
     return ("TCfg { cols: %d, rows: %d, sb: %s, limit: %s, alt: %s, crow: %s, ccol: %s, top: %s, bottom: %s, "
-            "parked_rows: %s, parked_sb: %s, tabs_k: %s, fill: %s, asrow: %s, big: %s }" % (
+            "parked_rows: %s, parked_sb: %s, tabs_k: %s, fill: %s, asrow: %s, limit_any: %s, big: %s }" % (
                 cols, rows, f["sb"], f["limit"], f["alt"], f["crow"], f["ccol"], f["top"], f["bottom"],
-                f["parked_rows"], f["parked_sb"], f["tabs_k"], f["fill"], f["asrow"], f["big"]))
+                f["parked_rows"], f["parked_sb"], f["tabs_k"], f["fill"], f["asrow"], f["limit_any"], f["big"]))
 
 
 def geo_desc(cols, rows, **kw):
@@ -389,9 +389,9 @@ for op in ("Decsc", "Scosc", "Save1048", "Decrc", "Scorc", "Restore1048", "Decst
     ctx(op, 1, 1, {"C17": T, "C01": T}, sb=0)
 
 
-def ris(cols, rows, alt, props, parked_rows=None, tabs_k="SYM", sb=1, limit="Some(1)", mem=8, suffix=""):
+def ris(cols, rows, alt, props, parked_rows=None, tabs_k="SYM", sb=1, limit="Some(1)", mem=8, suffix="", limit_any="false"):
     pr = parked_rows or rows
-    kw = dict(sb=sb if alt == 0 else 0, alt=alt, limit=limit, parked_rows=pr, parked_sb=1 if alt == 1 else 0, tabs_k=tabs_k)
+    kw = dict(sb=sb if alt == 0 else 0, alt=alt, limit=limit, parked_rows=pr, parked_sb=1 if alt == 1 else 0, tabs_k=tabs_k, limit_any=limit_any)
     opt = []
     if alt == 0:
         opt.append("RIS from the alternate screen")
@@ -583,3 +583,10 @@ for op in BIG_OPS:
 
 inst("buffer_new_any_limit", "buffer", "t_buffer_new_any_limit()", 4, {"C01": Q, "C13": Q}, mem=8,
      desc="Buffer::new(1, 1, Some(limit)) for every usize limit: no capacity / arithmetic overflow, hard limit formula", bounds="1x1 screen, limit any usize")
+
+for (cols, rows) in ((1, 1), (2, 2), (3, 3)):
+    inst("base_any_limit__%dx%d" % (cols, rows), "terminal", "t_base_any(%d, %d)" % (cols, rows), 16, {"C01": Q if cols == 2 else T, "C02": T, "C13": T}, mem=8,
+         desc="Terminal::new((%d,%d), Some(limit)) for every usize limit: returns normally, InvT, limits" % (cols, rows), bounds="%dx%d, limit any usize" % (cols, rows))
+
+ris(2, 2, 1, {"C19": Q, "C13": T}, parked_rows=3, sb=0, limit="Some(0)", limit_any="true", suffix="_anylimit")
+ris(2, 2, 0, {"C19": T}, sb=0, limit="Some(0)", limit_any="true", suffix="_anylimit")
